@@ -203,7 +203,7 @@ func Run(seed uint64, tier, work, driver string, replay []string, cfg Config) *c
 		"optional restarts and CheckTx) executed on the real RigoApp and replayed on the Lean model; a case is one operation line; " +
 		"distinct_nontrivial counts distinct (operation kind, tx type, result kind) triples observed"
 	r := rng.New(seed)
-	nh := 12
+	nh := 16
 	opt := apphist.Options{MaxBlocks: 24, TxPerBlock: 5, InvalidPct: 25, WithEVM: cfg.EVM, WithRestarts: cfg.Restarts, WithCheckTx: cfg.CheckTx}
 	if tier == "thorough" {
 		nh = 150
@@ -241,6 +241,17 @@ func Run(seed uint64, tier, work, driver string, replay []string, cfg Config) *c
 		_ = os.MkdirAll(hw, 0755)
 		mon := appmon.New()
 		opt.PlanScenario = (i+int(seed%uint64(apphist.NumScenarios)))%apphist.NumScenarios + 1
+		// the templates that need the longest coordinated histories are planned in fixed slots of every worker as well:
+		// the proposal life cycle with its quiet window (4), the validator whose own stake drops below the minimum (1),
+		// power moving between validators (7)
+		switch i % 8 {
+		case 1:
+			opt.PlanScenario = 2
+		case 3:
+			opt.PlanScenario = 8
+		case 5:
+			opt.PlanScenario = 5
+		}
 		s, err := RunHistory(seed*1000+uint64(i), hr, hw, opt, cfg, mon)
 		if err != nil {
 			res.Error = err.Error()
